@@ -618,10 +618,11 @@ Qed.
 
 Ltac dead := solve [split; [reflexivity|]; let R := fresh "R" in intro R; cbn in R; first [discriminate | congruence]].
 
-Lemma step_ok : forall T T1 o dh p dh' p',
-  check_op T o = Some T1 -> step dh p o = (dh', p') -> pinv T p -> step_post T1 dh dh' p'.
+(* the HISTORICAL machine under the discipline; [step] (below, F) reuses it with T = [] *)
+Lemma aliasing_step_ok : forall T T1 o dh p dh' p',
+  check_op T o = Some T1 -> step_aliasing dh p o = (dh', p') -> pinv T p -> step_post T1 dh dh' p'.
 Proof.
-  intros T T1 o dh p dh' p' Hc E Hp. unfold step in E.
+  intros T T1 o dh p dh' p' Hc E Hp. unfold step_aliasing in E.
   destruct (running p) eqn:R; cbn [negb] in E; [|inversion E; subst; split; [reflexivity|intro; congruence]].
   destruct (Hp R) as [Hh Hx].
   destruct o as [k c|k|k t|k k'|k t|m k t|k z|k s z|ps|ps|k k' n|k z|]; cbn [check_op] in Hc.
@@ -687,28 +688,7 @@ Proof.
   - (* Probe *) inversion Hc; inversion E; subst. split; [reflexivity|]. intros _. cbn. split; assumption.
 Qed.
 
-(* ---------------- a whole run *)
-Lemma run_ok : forall ops T T1 dh p dh' p',
-  fold_taint check_op T ops = Some T1 -> run dh p ops = (dh', p') -> pinv T p ->
-  dh' = dh /\ pinv T1 p'.
-Proof.
-  induction ops as [|o r IH]; intros T T1 dh p dh' p' Hf E Hp; cbn in Hf, E.
-  - inversion Hf; inversion E; subst. split; [reflexivity|assumption].
-  - destruct (check_op T o) as [T2|] eqn:Ec; [|discriminate].
-    destruct (step dh p o) as [dh1 p1] eqn:Es.
-    destruct (step_ok _ _ _ _ _ _ _ Ec Es Hp) as [A B]. subst dh1. eapply IH; eassumption.
-Qed.
-
-Lemma run_read_only : forall ops T T1 dh p,
-  fold_taint check_op T ops = Some T1 -> pinv T p -> read_only step dh p ops.
-Proof.
-  induction ops as [|o r IH]; intros T T1 dh p Hf Hp; cbn in *; [exact I|].
-  destruct (check_op T o) as [T2|] eqn:Ec; [|discriminate].
-  destruct (step dh p o) as [dh1 p1] eqn:Es.
-  destruct (step_ok _ _ _ _ _ _ _ Ec Es Hp) as [A B]. cbn. split; [assumption|].
-  eapply IH; eassumption.
-Qed.
-
+(* ---------------- a fresh context *)
 Lemma byref_nil : forall t, byref_tainted [] t = false.
 Proof.
   induction t as [z|m k|l IH|d IH] using tree_ind'; cbn.
@@ -738,73 +718,6 @@ Qed.
 Lemma finish_closed : forall dh h, closed dh = true -> finish dh h = dh.
 Proof.
   intros dh h H. unfold finish, closed in *. destruct (existsb obj_has_P dh); [discriminate|reflexivity].
-Qed.
-
-(* a disciplined run leaves the definition heap exactly as it found it *)
-Lemma disciplined_run_unchanged : forall dh r,
-  closed dh = true -> disciplined (r_ops r) = true -> fst (run1 dh r) = dh.
-Proof.
-  intros dh r Hc Hd. unfold run1, disciplined in *.
-  destruct (fold_taint check_op [] (r_ops r)) as [T1|] eqn:Ef; [|discriminate].
-  destruct (run dh (start r) (r_ops r)) as [dh1 p1] eqn:Er.
-  destruct (run_ok _ _ _ _ _ _ _ Ef Er (start_ok r)) as [A _]. subst dh1. cbn.
-  apply finish_closed. assumption.
-Qed.
-
-(* ... at EVERY step of the run (not only at its end) *)
-Lemma disciplined_run_read_only : forall dh r,
-  disciplined (r_ops r) = true -> read_only step dh (start r) (r_ops r).
-Proof.
-  intros dh r Hd. unfold disciplined in Hd.
-  destruct (fold_taint check_op [] (r_ops r)) as [T1|] eqn:Ef; [|discriminate].
-  eapply run_read_only; [exact Ef|apply start_ok].
-Qed.
-
-Lemma disciplined_history : forall rs dh,
-  closed dh = true -> Forall (fun r => disciplined (r_ops r) = true) rs ->
-  history dh rs = (dh, map (fun r => snd (run1 dh r)) rs).
-Proof.
-  intros rs dh Hc H. apply history_unchanged. eapply Forall_impl; [|exact H].
-  intros r Hr. cbn. apply disciplined_run_unchanged; assumption.
-Qed.
-
-Lemma disciplined_rerun_equal : forall rs dh i j r,
-  closed dh = true -> Forall (fun r => disciplined (r_ops r) = true) rs ->
-  nth_error rs i = Some r -> nth_error rs j = Some r ->
-  nth_error (snd (history dh rs)) i = nth_error (snd (history dh rs)) j.
-Proof.
-  intros rs dh i j r Hc H Hi Hj.
-  assert (Hu : Forall (fun r => fst (run1 dh r) = dh) rs).
-  { eapply Forall_impl; [|exact H]. intros r0 Hr. cbn. apply disciplined_run_unchanged; assumption. }
-  destruct (rerun_equal rs dh i j r Hu Hi Hj) as [A B]. congruence.
-Qed.
-
-(* two (or any number of) disciplined runs on concurrent threads, each with its own
-   context: under EVERY interleaving of their operations the definition heap is untouched
-   and each run ends in the private state it reaches when run alone *)
-Lemma disciplined_interleaving : forall dh (sch : list (nat * op)) (inits : nat -> list (string * tree)),
-  (forall t, disciplined (proj t sch) = true) ->
-  let ps := fun t => init_ctx (inits t) empty_priv in
-  fst (sched_run step dh ps sch) = dh /\
-  forall t, snd (sched_run step dh ps sch) t = snd (run dh (ps t) (proj t sch)).
-Proof.
-  intros dh sch inits H ps.
-  assert (Hro : forall t, read_only step dh (ps t) (proj t sch)).
-  { intro t. exact (disciplined_run_read_only dh (mkrun (inits t) (proj t sch)) (H t)). }
-  destruct (interleaving step sch dh ps Hro) as [A B]. split; [exact A|].
-  intro t. rewrite (run_is_exec (proj t sch) dh (ps t)). exact (B t).
-Qed.
-
-(* ================================================================ D. the defect *)
-Definition witness_defs : list tree := [TList [TInt 1; TInt 2]].
-Definition witness_run : runspec := mkrun [] [InjectIn "k" (CPtr (D 0)); AppendKey "k" (TInt 3)].
-
-Lemma no_def_mutation_refuted :
-  exists defs r, let dh := fst (load defs []) in
-    closed dh = true /\ fst (run1 dh r) <> dh /\
-    snd (run1 (fst (run1 dh r)) r) <> snd (run1 dh r).
-Proof.
-  exists witness_defs, witness_run. vm_compute. split; [reflexivity|]. split; intro H; discriminate H.
 Qed.
 
 (* ================================================================ E. loaded definitions are closed *)
@@ -863,8 +776,8 @@ Lemma load_closed : forall ts, closed (fst (load ts [])) = true.
 Proof. intro ts. apply load_closed_gen. reflexivity. Qed.
 
 
-(* ================================================================ F. the repaired machine:
-   when injection deep-copies (context.update(copy.deepcopy(in))), EVERY operation list is
+(* ================================================================ F. the machine [step]:
+   injection deep-copies (context.update(copy.deepcopy(in))), so EVERY operation list is
    disciplined with the empty taint set — no key is ever bound to a definition object *)
 Lemma merge_taint_nil : forall kv, merge_taint [] kv = Some [].
 Proof.
@@ -920,37 +833,59 @@ Proof.
   - inversion E; subst. split; [reflexivity|assumption].
 Qed.
 
-Lemma step_fixed_ok : forall o dh p dh' p',
-  step_fixed dh p o = (dh', p') -> pinv [] p -> dh' = dh /\ pinv [] p'.
+Lemma step_ok : forall o dh p dh' p',
+  step dh p o = (dh', p') -> pinv [] p -> dh' = dh /\ pinv [] p'.
 Proof.
   intros o dh p dh' p' E Hp.
   assert (Hother : match o with InjectIn _ _ => False | _ => True end ->
-                   step dh p o = (dh', p') -> dh' = dh /\ pinv [] p').
-  { intros Ho Es. exact (step_ok [] [] o dh p dh' p' (check_op_nil o Ho) Es Hp). }
+                   step_aliasing dh p o = (dh', p') -> dh' = dh /\ pinv [] p').
+  { intros Ho Es. exact (aliasing_step_ok [] [] o dh p dh' p' (check_op_nil o Ho) Es Hp). }
   destruct o as [k c|k|k t|k k'|k t|m k t|k z|k s z|ps|ps|k k' n|k z|]; try (apply Hother; [exact I|exact E]).
   exact (inject_fixed_ok FUEL k c dh p dh' p' E Hp).
 Qed.
 
-Lemma fixed_read_only : forall ops dh p, pinv [] p -> read_only step_fixed dh p ops.
+(* every operation list, from any state satisfying the invariant, only READS the definition heap *)
+Lemma all_read_only : forall ops dh p, pinv [] p -> read_only step dh p ops.
 Proof.
   induction ops as [|o r IH]; intros dh p Hp; cbn; [exact I|].
-  destruct (step_fixed dh p o) as [dh1 p1] eqn:Es. destruct (step_fixed_ok _ _ _ _ _ Es Hp) as [A B].
+  destruct (step dh p o) as [dh1 p1] eqn:Es. destruct (step_ok _ _ _ _ _ Es Hp) as [A B].
   cbn. split; [assumption|]. apply IH. assumption.
 Qed.
 
-Lemma fixed_run_unchanged : forall dh r, closed dh = true -> fst (run1_with step_fixed dh r) = dh.
+Lemma run_read_only : forall dh r, read_only step dh (start r) (r_ops r).
+Proof. intros dh r. apply all_read_only. apply start_ok. Qed.
+
+Lemma run_unchanged : forall dh r, closed dh = true -> fst (run1 dh r) = dh.
 Proof.
-  intros dh r Hc. unfold run1_with.
-  pose proof (read_only_exec step_fixed (r_ops r) dh (start r) (fixed_read_only _ _ _ (start_ok r))) as H.
-  destruct (exec step_fixed dh (start r) (r_ops r)) as [dh1 p1]. cbn [fst snd] in *. subst dh1.
+  intros dh r Hc. unfold run1. rewrite run_is_exec.
+  pose proof (read_only_exec step (r_ops r) dh (start r) (run_read_only dh r)) as H.
+  destruct (exec step dh (start r) (r_ops r)) as [dh1 p1]. cbn [fst snd] in *. subst dh1.
   apply finish_closed. assumption.
 Qed.
 
-Lemma fixed_interleaving : forall dh (sch : list (nat * op)) (inits : nat -> list (string * tree)),
-  let ps := fun t => init_ctx (inits t) empty_priv in
-  fst (sched_run step_fixed dh ps sch) = dh /\
-  forall t, snd (sched_run step_fixed dh ps sch) t = snd (exec step_fixed dh (ps t) (proj t sch)).
+Lemma history_all : forall rs dh, closed dh = true ->
+  history dh rs = (dh, map (fun r => snd (run1 dh r)) rs).
 Proof.
-  intros dh sch inits ps. apply interleaving. intro t. apply fixed_read_only.
-  exact (start_ok (mkrun (inits t) [])).
+  intros rs dh Hc. apply history_unchanged. apply Forall_forall. intros r _. apply run_unchanged. assumption.
+Qed.
+
+Lemma rerun_all : forall rs dh i j r, closed dh = true ->
+  nth_error rs i = Some r -> nth_error rs j = Some r ->
+  nth_error (snd (history dh rs)) i = Some (snd (run1 dh r)) /\
+  nth_error (snd (history dh rs)) j = Some (snd (run1 dh r)).
+Proof.
+  intros rs dh i j r Hc Hi Hj. apply rerun_equal; try assumption.
+  apply Forall_forall. intros r0 _. apply run_unchanged. assumption.
+Qed.
+
+Lemma interleaving_all : forall dh (sch : list (nat * op)) (inits : nat -> list (string * tree)),
+  let ps := fun t => init_ctx (inits t) empty_priv in
+  fst (sched_run step dh ps sch) = dh /\
+  forall t, snd (sched_run step dh ps sch) t = snd (run dh (ps t) (proj t sch)).
+Proof.
+  intros dh sch inits ps.
+  assert (Hro : forall t, read_only step dh (ps t) (proj t sch)).
+  { intro t. apply all_read_only. exact (start_ok (mkrun (inits t) [])). }
+  destruct (interleaving step sch dh ps Hro) as [A B]. split; [exact A|].
+  intro t. rewrite (run_is_exec (proj t sch) dh (ps t)). exact (B t).
 Qed.
